@@ -531,7 +531,9 @@ def run_check(mod, tier="quick", seed=1, replay=None, only_part=None, replay_inn
     ncpu = int(os.environ.get("VERIF_JOBS", "16"))
     jobs = []
     for p in parts:
-        n = p.quick if tier == "quick" else p.thorough
+        # thorough = the per-part thorough count x VERIF_THOROUGH_SCALE (default 4: about 5-10
+        # minutes per property on 16 cores; bounded by case count, never by a clock)
+        n = p.quick if tier == "quick" else p.thorough * int(os.environ.get("VERIF_THOROUGH_SCALE", "4"))
         shards = p.shards or (min(ncpu, 8) if tier == "quick" else ncpu)
         if n < 200:
             shards = min(shards, max(1, n // 25))
